@@ -128,34 +128,33 @@ theorem ta_revoke_effective (o : TaObjects) (now key : Nat) (prev : PubObj)
 
 /-! ### Revocation requests -/
 
-/-- Full statement (false of the code, finding F-C03-1): a revocation request that is answered
-positively for a key the child holds a certificate for removes that certificate.
-    `∀ res c rcn key, (processChildRevokeKey res c rcn key).positive → c.isIssued key →
-       ∃ my, processChildRevokeKey res c rcn key = .revoked my key`
-The code tests `resources.contains_key` on the *child's* class name before translating it: with a
-mapped class name the request is ignored and still answered positively. -/
-theorem revoke_request_effective_fails :
-    ∃ (res : List Nat) (c : ChildM) (rcn key : Nat),
-      (processChildRevokeKey res c rcn key).positive = true ∧ c.isIssued key = true ∧
-      c.parentNameForRcn rcn ∈ res ∧ processChildRevokeKey res c rcn key = .ignored :=
-  ⟨[0], { usedKeys := [(5, some 0)], rcnMap := [(0, 7)] }, 7, 5, by decide, by decide, by decide, by decide⟩
-
-/-- What holds: when the class name the child uses is also the parent's name for it, a positive
-answer for an issued key means the certificate is removed, in exactly that class. -/
-theorem revoke_request_effective_partial (res : List Nat) (c : ChildM) (rcn key : Nat)
-    (_hpos : (processChildRevokeKey res c rcn key).positive = true) (hiss : c.isIssued key = true)
-    (hclass : rcn ∈ res) : processChildRevokeKey res c rcn key = .revoked (c.parentNameForRcn rcn) key := by
-  simp [processChildRevokeKey, hclass, hiss]
-
-/-- With the proposed repair (translate, then test) the full statement holds: a positive answer for an
-issued key in a class the parent has – under whichever name the child was told – revokes it there. -/
-theorem revoke_request_effective_after_fix (res : List Nat) (c : ChildM) (rcn key : Nat)
+/-- A revocation request that is answered positively (`rfc6492_revoke` replies unless the command
+fails) for a key the child holds a certificate for, in a class the parent has – under whichever
+name the child was told – removes that certificate, in exactly that class. -/
+theorem revoke_request_effective (res : List Nat) (c : ChildM) (rcn key : Nat)
     (hiss : c.isIssued key = true) (hclass : c.parentNameForRcn rcn ∈ res) :
-    processChildRevokeKeyFixed res c rcn key = .revoked (c.parentNameForRcn rcn) key := by
-  simp [processChildRevokeKeyFixed, hclass, hiss]
+    (processChildRevokeKey res c rcn key).positive = true ∧
+    processChildRevokeKey res c rcn key = .revoked (c.parentNameForRcn rcn) key := by
+  simp [processChildRevokeKey, hclass, hiss, RevokeOut.positive]
 
+/-- Non-vacuity, with a mapped class name. -/
 example : ∃ (res : List Nat) (c : ChildM) (rcn key : Nat),
-    (processChildRevokeKey res c rcn key).positive = true ∧ c.isIssued key = true ∧ rcn ∈ res :=
-  ⟨[0], { usedKeys := [(5, some 0)] }, 0, 5, by decide, by decide, by decide⟩
+    c.isIssued key = true ∧ c.parentNameForRcn rcn ∈ res ∧ c.parentNameForRcn rcn ≠ rcn :=
+  ⟨[0], { usedKeys := [(5, some 0)], rcnMap := [(0, 7)] }, 7, 5, by decide, by decide, by decide⟩
+
+/-- A request for a key without certificate is refused (not answered positively). -/
+theorem revoke_request_unknown_key_refused (res : List Nat) (c : ChildM) (rcn key : Nat)
+    (hiss : c.isIssued key = false) (hclass : c.parentNameForRcn rcn ∈ res) :
+    (processChildRevokeKey res c rcn key).positive = false := by
+  simp [processChildRevokeKey, hclass, hiss, RevokeOut.positive]
+
+/-- The behaviour before fix 43d7eca0 (finding F-C03-1, replayed on the code at the time): the class
+was looked up under the *child's* name before translating it, so a request under a mapped class
+name was ignored and still answered positively. -/
+theorem pinned_revoke_request_effective_fails :
+    ∃ (res : List Nat) (c : ChildM) (rcn key : Nat),
+      (pinnedProcessChildRevokeKey res c rcn key).positive = true ∧ c.isIssued key = true ∧
+      c.parentNameForRcn rcn ∈ res ∧ pinnedProcessChildRevokeKey res c rcn key = .ignored :=
+  ⟨[0], { usedKeys := [(5, some 0)], rcnMap := [(0, 7)] }, 7, 5, by decide, by decide, by decide, by decide⟩
 
 end KM.Props.C03
